@@ -134,6 +134,14 @@ Theorem simplify_pruned : forall tbl t r, simplify tbl t = Some r -> pruned tbl 
 Proof. exact simplify_pruned_lemma. Qed.
 Print Assumptions simplify_pruned.
 
+(* the property for API-built terms in one statement: the simplified term has the same truth value under
+   every assignment drawn from the table, is again in normal form, and offers only still-possible values *)
+Theorem api_simplify : forall (sigma : name -> name) (tbl : table) (t r : term),
+  built t -> covers tbl t = true -> consistent sigma tbl -> simplify tbl t = Some r ->
+  eval sigma r = eval sigma t /\ normal r = true /\ oriented r = true /\ pruned tbl r = true.
+Proof. exact api_simplify_lemma. Qed.
+Print Assumptions api_simplify.
+
 (* ---------- non-vacuity ---------- *)
 Definition va := "~a". Definition vb := "~b". Definition vc := "~c".
 
